@@ -20,6 +20,8 @@ func init() {
 			Rule: "P: explicit-state search over one LineParser value: alphabet of about 135 lines (thorough: plus every line of <=3 items of a constructive alphabet, about 6000 lines) (plain, multi-byte, every marker form, typed properties, lines leaving markers open, closers and close-all for them, replacement markers, character prefixes, outer whitespace, and lines failing at every parser stage); transition ParseMarkup(line); " +
 				"states keyed by a reflective dump of the parser; from every reachable state every line is parsed and its result (text, attributes in order with positions, lengths, source positions and properties, error or not) compared with that of a fresh parser; the search runs to closure or to depth 3 (quick) / 4 (thorough); " +
 				"D: every dialogue in which a marked-up target line is shown after every sequence of <=3 (quick) / 4 (thorough) other lines from a pool including lines whose preparation fails (markup errors, failing expressions), compared with the dialogue showing the target alone; " +
+				"every result returned earlier by the same parser is re-read after each later parse and must be unchanged (P, clause earlier-result-changed); " +
+				"O: every choice of 2..3 (quick) / 4 (thorough) options over 9 labels, each option compared with its label shown alone as a line; " +
 				"a case is one (history, line) pair; non-trivial = history of length >= 1",
 			StatesMean:  "distinct LineParser states by reflective dump (P) plus distinct dialogue prefixes (D); transitions = ParseMarkup / Next calls compared with the fresh result",
 			Assumptions: []string{"a parser whose dumped state is equal behaves equally (the dump covers every field reachable from the LineParser value)", "errors are compared as error / no error"},
@@ -141,12 +143,17 @@ func runC14(ctx *report.Ctx) {
 				frontier = append(frontier, node{[]int{i}})
 			}
 		}
-		replayHist := func(h []int) *markup.LineParser {
+		// replayHist also hands out the result of the last parse of the history: a result that was returned
+		// must not change when the parser is used again (the runner parses all options of a choice with one
+		// parser before it returns them)
+		replayHist := func(h []int) (*markup.LineParser, *markup.ParseResult) {
 			lp := &markup.LineParser{}
+			var last *markup.ParseResult
 			for _, i := range h {
-				guard(func() { lp.ParseMarkup(lines[i]) })
+				last = nil
+				guard(func() { last, _ = lp.ParseMarkup(lines[i]) })
 			}
-			return lp
+			return lp, last
 		}
 		states, transitions := int64(0), int64(0)
 		closed := true
@@ -160,7 +167,7 @@ func runC14(ctx *report.Ctx) {
 					break
 				}
 				ctx.Progress.Add(1) // the search is alive (the hang watchdog looks at this counter)
-				lp := replayHist(nd.hist)
+				lp, _ := replayHist(nd.hist)
 				key := dump.String(lp)
 				if seen[key] {
 					continue
@@ -170,13 +177,24 @@ func runC14(ctx *report.Ctx) {
 				ctx.Current(fmt.Sprintf("P: history %v", nd.hist))
 				// from this state, every line
 				for j, l := range lines {
-					lp2 := replayHist(nd.hist)
+					lp2, earlier := replayHist(nd.hist)
+					earlierWas := ""
+					if earlier != nil {
+						earlierWas = resultString(earlier, nil, nil)
+					}
 					var res *markup.ParseResult
 					var err error
 					pan := guard(func() { res, err = lp2.ParseMarkup(l) })
 					got := resultString(res, err, pan)
 					transitions++
 					ctx.AddEvals(1, 1)
+					if earlier != nil {
+						if now := resultString(earlier, nil, nil); now != earlierWas {
+							ctx.Violation(report.Violation{Clause: "earlier-result-changed", Witness: fmt.Sprintf("result of %q after the same parser parsed %q", lines[nd.hist[len(nd.hist)-1]], l),
+								Detail: fmt.Sprintf("the result returned for the earlier line was %s; after the later parse the same result value reads %s", earlierWas, now), Part: "P",
+								Extra: map[string]any{"earlier": lines[nd.hist[len(nd.hist)-1]], "line": l}})
+						}
+					}
 					if got != fresh[j] {
 						var hl []string
 						for _, i := range nd.hist {
@@ -259,6 +277,55 @@ func runC14(ctx *report.Ctx) {
 			ctx.Violation(report.Violation{Clause: "dialogue-history", Witness: fmt.Sprintf("line %q shown after [%s]", t, strings.Join(src[:len(src)-1], " | ")),
 				Detail: fmt.Sprintf("shown alone the line gives %s; after the prefix it gives %s", base[t], got), Choices: c.Choices(), Part: "D",
 				Extra: map[string]any{"scripts": []string{"title: A\n---\n" + strings.Join(src, "\n") + "\n===\n"}}})
+		}
+	})
+
+	// O: option groups. The runner prepares all options of a choice with one parser before it returns them:
+	// every option of the group must carry the result its label gives when shown alone as a line.
+	optLabels := append([]string{"plain", "é [b n=1/] é", "Well, [wave]hello", "[c p=1]q[/c] r [d/]"}, targets...)
+	baseOpt := map[string]string{}
+	for _, t := range optLabels {
+		baseOpt[t], _ = show([]string{t})
+	}
+	omax := report.Pick(ctx, 3, 4)
+	part(ctx, "O", -1, func(c *explore.Chooser) {
+		k := 2 + c.Choose(omax-1, "options")
+		var labels []string
+		for i := 0; i < k; i++ {
+			labels = append(labels, optLabels[c.Choose(len(optLabels), "label")])
+		}
+		if !c.Mine() {
+			return
+		}
+		script := "title: A\n---\n"
+		for _, l := range labels {
+			script += "-> " + l + "\n"
+		}
+		script += "===\n"
+		ctx.Current("O: " + strings.Join(labels, " | "))
+		r, err, pan := yc.NewReal([]string{script}, "abc", nil)
+		ctx.AddEvals(1, 1)
+		ctx.AddStates(1)
+		ctx.AddTransitions(1)
+		ctx.AddTraces(1)
+		if err != nil || pan != "" {
+			ctx.HarnessError("C14 O: script does not load: %v %s :: %q", err, pan, script)
+			return
+		}
+		o := r.Next(0)
+		if o.Panic != "" || o.K != yc.OOptions || len(o.Opts) != k {
+			ctx.Violation(report.Violation{Clause: "option-group-history", Witness: fmt.Sprintf("options [%s]", strings.Join(labels, " | ")),
+				Detail: "the choice was not returned: " + o.String(), Choices: c.Choices(), Part: "O", Extra: map[string]any{"scripts": []string{script}}})
+			return
+		}
+		for i, op := range o.Opts {
+			got := resultString(&markup.ParseResult{Text: op.Text, Attributes: op.Attrs}, nil, nil)
+			if got != baseOpt[labels[i]] {
+				ctx.Violation(report.Violation{Clause: "option-group-history", Witness: fmt.Sprintf("option %d of [%s]", i, strings.Join(labels, " | ")),
+					Detail: fmt.Sprintf("shown alone as a line the label gives %s; as option %d of the group it gives %s", baseOpt[labels[i]], i, got), Choices: c.Choices(), Part: "O",
+					Extra: map[string]any{"scripts": []string{script}}})
+				return
+			}
 		}
 	})
 }
